@@ -259,6 +259,14 @@ func (e *Env) eval(x ast.Expr) TV {
 			return TV{sv, t}
 		}
 		e.fail(x, "unsupported composite literal")
+	case *ast.TypeAssertExpr:
+		base := e.eval(x.X)
+		t := e.resolveType(x.Type)
+		if t == nil {
+			e.fail(x, "unknown type in type assertion")
+		}
+		e.vc.declIface()
+		return TV{e.vc.unbox(base.term(), t), t}
 	case *ast.FuncLit:
 		e.fail(x, "function literal outside quantifier")
 	}
@@ -496,9 +504,10 @@ func (e *Env) evalBinary(x *ast.BinaryExpr) TV {
 	}
 	a := e.eval(x.X)
 	b := e.eval(x.Y)
-	if isUntyped(a.T) && !isUntyped(b.T) {
+	isNil := func(tv TV) bool { s, ok := tv.V.(Scalar); return ok && s.S == "Nil" }
+	if isUntyped(a.T) && !isUntyped(b.T) && !isNil(a) {
 		a = e.coerce(a, b.T)
-	} else if isUntyped(b.T) && !isUntyped(a.T) {
+	} else if isUntyped(b.T) && !isUntyped(a.T) && !isNil(b) {
 		b = e.coerce(b, a.T)
 	}
 	switch x.Op {
@@ -600,7 +609,9 @@ func (e *Env) evalCall(x *ast.CallExpr) TV {
 			n := e.clone()
 			n.names[v] = intTV(bv)
 			n.inQuant++
+			e.vc.inBinder++
 			body := n.evalBlock(fl.Body.List)
+			e.vc.inBinder--
 			bt := body.V.(Scalar).T
 			rng := and(le(lo, bv), lt(bv, hi))
 			if id.Name == "forallIn" {
@@ -633,7 +644,9 @@ func (e *Env) evalCall(x *ast.CallExpr) TV {
 					guard = and(guard, rangeFact(t, bv))
 				}
 			}
+			e.vc.inBinder++
 			body := n.evalBlock(fl.Body.List).V.(Scalar).T
+			e.vc.inBinder--
 			if id.Name == "forall" {
 				return boolTV(forall(vars, implies(guard, body)))
 			}
@@ -786,7 +799,26 @@ func (e *Env) evalBlock(stmts []ast.Stmt) TV {
 		return n.evalBlock(rest)
 	case *ast.IfStmt:
 		if s.Init != nil {
-			e.fail(s, "if with init not supported in spec bodies")
+			as, ok := s.Init.(*ast.AssignStmt)
+			if !ok || as.Tok != token.DEFINE || len(as.Lhs) != 2 || len(as.Rhs) != 1 {
+				e.fail(s, "only `if v, ok := x.(T); ...` init allowed in spec bodies")
+			}
+			ta, ok := as.Rhs[0].(*ast.TypeAssertExpr)
+			if !ok {
+				e.fail(s, "only `if v, ok := x.(T); ...` init allowed in spec bodies")
+			}
+			base := e.eval(ta.X)
+			t := e.resolveType(ta.Type)
+			if t == nil {
+				e.fail(s, "unknown type in type assertion")
+			}
+			e.vc.declIface()
+			n := e.clone()
+			n.names[as.Lhs[0].(*ast.Ident).Name] = TV{e.vc.unbox(base.term(), t), t}
+			n.names[as.Lhs[1].(*ast.Ident).Name] = boolTV(eq(app("itag", base.term()), e.vc.typeTag(t)))
+			ns := *s
+			ns.Init = nil
+			return n.evalBlock(append([]ast.Stmt{&ns}, rest...))
 		}
 		c := e.evalBool(s.Cond)
 		thenStmts := append(append([]ast.Stmt{}, s.Body.List...), rest...)
